@@ -10,6 +10,34 @@ TRUSTED_COMMON = [
 ]
 
 PROPS = {
+    "C02": {
+        "num": 2,
+        "vo": ["Properties/C02.vo"],
+        "rule": "random rule sets of 1..7 rules built with the Rule builder: saliences incl. ties, negatives and i32 extremes, enable flags, no-loop, lock-on-active, 3 agenda groups, 2 activation groups, "
+                "date-effective/expires around the evaluation timestamps, 1..2 integer comparisons per condition, 0..2 actions (assign, add, ActivateAgendaGroup); histories of 1..8 engine calls "
+                "(execute_at_time at timestamps 0..9, set/pop/clear focus, reset_no_loop_tracking, enable/disable) with max_cycles 1,2,3,10; observed per execute: cycle count, fired count, the firing "
+                "sequence (each rule appends its id to a trace fact), final fields, focused group; non-trivial = at least one firing",
+        "level_text": "Proved for every condition language and action semantics: the rule vector is kept in descending salience with insertion order among equals; the firings of a pass are a subsequence of it; "
+                "every firing passed every gate at the moment it was considered (enabled, focused group, date window, lock-on-active, activation group, no-loop) with a true condition; a no-loop rule fires at most once "
+                "per pass and never while recorded; at most one rule of an activation group fires per pass; a lock-on-active rule is blocked after firing until its own group is activated again. The monitor is equality "
+                "of the implementation's observations with this proved model on a concrete instance (integer comparisons; assign/add/ActivateAgendaGroup actions).",
+        "level_note": "Trusted: Coq kernel; model of execute_at_time/AgendaManager/ActivationGroupManager/workflow queue/KB order after fix b4b5b52; the concrete instance EngineConc; harness; extraction. "
+                "no_loop across several execute calls is covered per pass (theorems) and per history (correspondence). Axioms: none.",
+        "trusted_base": [],
+        "assumptions": ["wall-clock timeout disabled; custom functions/handlers total (outside the typed core)"],
+    },
+    "C03": {
+        "num": 3,
+        "vo": ["Properties/C03.vo"],
+        "rule": "random self-triggering and mutually triggering rule sets (1..5 rules, mostly without no-loop: counters, toggles, assignments feeding each other's conditions) with max_cycles uniformly in 0..=64 and the "
+                "timeout disabled; observed: cycle count, fired count, firing sequence, final fields; non-trivial = at least one firing",
+        "level_text": "Proved for every condition language and action semantics (total functions): execute makes at most max_cycles passes, the reported cycle count equals the number of passes and is <= max_cycles, the "
+                "fired count equals the number of firings, every pass but the last fired something and the last is quiet unless the bound was reached, and after a quiet last pass no still-eligible rule has a true condition "
+                "on the final facts (fixpoint). Termination is structural recursion on cycles and rules. The monitor is equality of the implementation's observations with this proved model on the concrete instance.",
+        "level_note": "Trusted: Coq kernel; model of execute_at_time (same as C02); termination of the concrete condition/expression evaluators is C05's subject; custom functions that never return are outside the model. Axioms: none.",
+        "trusted_base": [],
+        "assumptions": ["timeout: None (the property's quantifier)"],
+    },
     "C07": {
         "num": 7,
         "vo": ["Properties/C07.vo"],
